@@ -24,7 +24,7 @@ func (matcher *requestResponseMatcher) SetMaxTry(value int) {
 }
 
 func (matcher *requestResponseMatcher) registerRequest(ident string, request *RedisPacket, captureTime time.Time, captureSize int) *api.OutputChannelItem {
-	verifhook.Yield("match.req.pre")
+	verifhook.Yield("redis.match.req.pre")
 	requestRedisMessage := api.GenericMessage{
 		IsRequest:   true,
 		CaptureTime: captureTime,
@@ -47,13 +47,13 @@ func (matcher *requestResponseMatcher) registerRequest(ident string, request *Re
 		return matcher.preparePair(&requestRedisMessage, responseRedisMessage)
 	}
 
-	verifhook.Yield("match.req.mid")
+	verifhook.Yield("redis.match.req.mid")
 	matcher.openMessagesMap.Store(ident, &requestRedisMessage)
 	return nil
 }
 
 func (matcher *requestResponseMatcher) registerResponse(ident string, response *RedisPacket, captureTime time.Time, captureSize int) *api.OutputChannelItem {
-	verifhook.Yield("match.res.pre")
+	verifhook.Yield("redis.match.res.pre")
 	responseRedisMessage := api.GenericMessage{
 		IsRequest:   false,
 		CaptureTime: captureTime,
@@ -76,7 +76,7 @@ func (matcher *requestResponseMatcher) registerResponse(ident string, response *
 		return matcher.preparePair(requestRedisMessage, &responseRedisMessage)
 	}
 
-	verifhook.Yield("match.res.mid")
+	verifhook.Yield("redis.match.res.mid")
 	matcher.openMessagesMap.Store(ident, &responseRedisMessage)
 	return nil
 }
